@@ -39,6 +39,10 @@ class CreatedFiles:
     #     started creating which haven't resulted in an error.
     # set<str> _norm_cased_files - A set of the norm-cased filenames of the
     #     regular files we have created.
+    # set<str> _norm_cased_removed_files - The norm-cased filenames of the
+    #     files we have started building, but have not (successfully) finished
+    #     building. These do not exist in the virtual state of the file system,
+    #     even if an external file with that filename exists.
 
     def __init__(self):
         """Initialize a new empty ``CreatedFiles`` object."""
@@ -46,6 +50,7 @@ class CreatedFiles:
         self._norm_cased_dirs = set()
         self._norm_cased_dir_to_subfiles = {}
         self._norm_cased_dir_to_started_count = {}
+        self._norm_cased_removed_files = set()
 
     def started_building_file(self, filename):
         """Update this for starting a build file operation.
@@ -54,6 +59,7 @@ class CreatedFiles:
             filename (str): The non-norm-cased filename of the output
                 file.
         """
+        self._norm_cased_removed_files.add(os.path.normcase(filename))
         parent = os.path.dirname(filename)
         norm_cased_parent = os.path.normcase(parent)
         self._norm_cased_dir_to_started_count[norm_cased_parent] = (
@@ -74,6 +80,7 @@ class CreatedFiles:
         Arguments:
             filename (str): The filename of the output file.
         """
+        self._norm_cased_removed_files.discard(os.path.normcase(filename))
         self._norm_cased_files.add(os.path.normcase(filename))
         self._add_to_subfiles(filename)
 
@@ -109,6 +116,16 @@ class CreatedFiles:
             norm_cased_filename (str): The norm-cased filename.
         """
         return norm_cased_filename in self._norm_cased_files
+
+    def removed_norm_cased_file(self, norm_cased_filename):
+        """Return whether we virtually removed the specified file.
+
+        Return whether we started building the file and did not finish
+        successfully. Such a file does not exist in the virtual state of
+        the file system, even if there is an external file with that
+        filename.
+        """
+        return norm_cased_filename in self._norm_cased_removed_files
 
     def has_norm_cased_dir(self, norm_cased_dir):
         """Return whether we created a directory with the specified filename.
